@@ -641,7 +641,15 @@ def boundary_describe(case):
     return keys
 
 
-CORPUS = VOLUME_CORPUS + [
+# scalar mean filters with a non-unit volume AND a non-zero solution mean (a misplaced parenthesis in filter_sol,
+# `(sol_mean - dot) / volume` instead of `sol_mean - dot / volume`, is wrong exactly there), both constructors
+SOLMEAN_CORPUS = [
+    "vec sol M M %d 3 1/1 2/1 1/2 2/1 1/1 4/1 %s %s D 3 4/1 -5/1 6/1" % (ct, sol, "6/1")
+    for ct in (0, 1) for sol in ("3/1", "-1/2")] + [
+    "vec sol C(U,M) C 2 U 0 2 1 0 9/1 M 0 2 1/3 2/1 3/1 1/1 5/2 3/1 D 2 1/1 1/1",
+    "vec sol MB2 MB 2 0 1 2/1 3/1 2/1 3/1 1/2 -3/1 4/1 9/1 B 2 1 5/1 7/1"]
+
+CORPUS = VOLUME_CORPUS + SOLMEAN_CORPUS + [
     # the excluded point of filter_mat: constrained rows without a stored diagonal entry become zero rows
     "mat mat U U 0 3 2 0 5/1 2 6/1 3 3 4 0 2 3 4 4 0 2 0 2 4 1/1 2/1 3/1 4/1",
     # rectangular matrix, constrained row index beyond the number of columns
@@ -1138,7 +1146,9 @@ def oracle_vec(case, out):
     except OutOfDomain as e:
         if out.split(":")[0] in ("SIGNAL", "TIMEOUT", "SANITIZER"):
             return "filter outside its domain ended with " + out
-        if str(e) in MUST_ABORT and not out.startswith("ABORT"):
+        if str(e) in MUST_ABORT and out != "ABORT":
+            # "ABORT:div0" here = the constructor let the input through and a later division failed (the former
+            # finding c06-edge:F1 would show up exactly like this)
             return "constructor accepted an input it has to reject (%s): %s" % (e, out[:80])
         return None
     if is_abnormal(out):
@@ -1331,6 +1341,10 @@ def oracle(case, out):
 
 
 def canon(out):
+    """two abort classes, printed by the harness and by the model alike: a division by zero of the exact scalar
+    ("ABORT:div0"; floating point would go on with inf/NaN) and everything else (an XASSERT: "ABORT")"""
+    if out.startswith("ABORT:Q:_division_by_zero") or out == "ABORT:div0":
+        return "ABORT:div0"
     if out.startswith("ABORT"):
         return "ABORT"
     return out
@@ -1360,6 +1374,8 @@ def leaf_class(m):
     if k in ("M", "MB"):
         ct = m[1] if k == "M" else m[2]
         keys = ["%s-ctor:%d" % (k, ct)] + ([] if consistent_mean(m) else ["%s-volume-inconsistent" % k])
+        if k == "M" and ct != 2 and m[2] > 0 and NAN not in (m[5], m[6]) and m[5] != 0 and m[6] != 1:
+            keys.append("M-solmean-nonzero-volume-nonunit")
         if k == "MB" and ct != 2 and m[3] > 0 and NAN not in m[7] and all(abs(x) > EPS for x in m[7]) \
                 and len(set(m[7])) > 1:
             keys.append("MB-component-volumes-differ")
